@@ -1531,3 +1531,219 @@ func c07r14(rc *core.RC) {
 		rc.Unknown("decoder/anonymous-field-decoders", token.NoPos, "no call of newAnonymousFieldDecoder found")
 	}
 }
+
+// ---- C07.R15 the pooled working header of the slice decoder goes back to the pool as it is used ----
+
+// sliceDecoder decodes into a working array taken from a sync.Pool with its header (data, len, cap). While decoding
+// the array may be replaced by one of twice the capacity: the function keeps the current array and capacity in two
+// locals and writes them into the header before the header is released. A header that goes back with the new
+// capacity and the old, smaller array makes the next decode of the type write behind the end of that array (the
+// elements are stored with pointer arithmetic, not through a checked slice). Obligations, for every function of the
+// decoder package that calls releaseSlice(h): in the statement list of the call, in front of it, h.cap and h.data are
+// both assigned from the locals that the growth step doubles and re-allocates; and the fields cap and data of such a
+// header are never changed one without the other (no h.cap *= 2, no single store).
+func c07r15(rc *core.RC) {
+	p := rc.P
+	n := 0
+	for _, fd := range p.Funcs("decoder") {
+		if fd.Body == nil {
+			continue
+		}
+		info := p.Info(fd)
+		// the growth step: capacity *= 2 ; data = newArray(T, capacity)
+		var capVar, dataVar types.Object
+		ast.Inspect(fd.Body, func(m ast.Node) bool {
+			as, ok := m.(*ast.AssignStmt)
+			if !ok || len(as.Lhs) != 1 || len(as.Rhs) != 1 {
+				return true
+			}
+			if call, isCall := core.Unparen(as.Rhs[0]).(*ast.CallExpr); isCall && core.CalleeName(info, call) == "decoder.newArray" && len(call.Args) == 2 {
+				if o := core.ObjOf(info, as.Lhs[0]); o != nil {
+					if c := core.ObjOf(info, call.Args[1]); c != nil {
+						dataVar, capVar = o, c
+					}
+				}
+			}
+			return true
+		})
+		type site struct {
+			call *ast.CallExpr
+			list []ast.Stmt
+			idx  int
+		}
+		var sites []site
+		var lists [][]ast.Stmt
+		ast.Inspect(fd.Body, func(m ast.Node) bool {
+			switch x := m.(type) {
+			case *ast.BlockStmt:
+				lists = append(lists, x.List)
+			case *ast.CaseClause:
+				lists = append(lists, x.Body)
+			}
+			return true
+		})
+		for _, l := range lists {
+			for i, st := range l {
+				if es, ok := st.(*ast.ExprStmt); ok {
+					if call, isCall := es.X.(*ast.CallExpr); isCall && strings.HasSuffix(core.CalleeName(info, call), "sliceDecoder.releaseSlice") && len(call.Args) == 1 {
+						sites = append(sites, site{call, l, i})
+					}
+				}
+			}
+		}
+		if len(sites) == 0 {
+			continue
+		}
+		rc.Touch(p.FuncName(fd))
+		for k, s := range sites {
+			n++
+			key := fmt.Sprintf("%s/releaseSlice#%d header-as-used", p.FuncName(fd), k+1)
+			h := core.ObjOf(info, s.call.Args[0])
+			if h == nil || capVar == nil || dataVar == nil {
+				rc.Unknown(key, s.call.Pos(), "the header %s or the growth step (capacity, data = newArray(…, capacity)) was not recognised", core.Src(p.Fset, s.call.Args[0]))
+				continue
+			}
+			gotCap, gotData := false, false
+			for j := 0; j < s.idx; j++ {
+				as, isAs := s.list[j].(*ast.AssignStmt)
+				if !isAs || len(as.Lhs) != 1 || len(as.Rhs) != 1 {
+					continue
+				}
+				sel, isSel := core.Unparen(as.Lhs[0]).(*ast.SelectorExpr)
+				if !isSel || core.ObjOf(info, sel.X) != h || as.Tok != token.ASSIGN {
+					continue
+				}
+				switch sel.Sel.Name {
+				case "cap":
+					gotCap = core.ObjOf(info, as.Rhs[0]) == capVar
+				case "data":
+					gotData = core.ObjOf(info, as.Rhs[0]) == dataVar
+				}
+			}
+			switch {
+			case gotCap && gotData:
+				rc.OK(key, s.call.Pos(), "%s.cap = %s and %s.data = %s stand in front of the release", h.Name(), capVar.Name(), h.Name(), dataVar.Name())
+			default:
+				miss := "cap"
+				if gotCap {
+					miss = "data"
+				}
+				if !gotCap && !gotData {
+					miss = "cap and data"
+				}
+				rc.Bad(key, s.call.Pos(), "the working header goes back to the pool without %s.%s set from the function's current %s: after the array has grown, the header holds a capacity and an array that do not belong together, and the next decode of the type stores elements behind the end of the smaller array", h.Name(), miss, map[string]string{"cap": capVar.Name(), "data": dataVar.Name(), "cap and data": capVar.Name() + " and " + dataVar.Name()}[miss])
+			}
+		}
+		// no field of the header is changed alone
+		hdrs := map[types.Object]bool{}
+		for _, s := range sites {
+			if h := core.ObjOf(info, s.call.Args[0]); h != nil {
+				hdrs[h] = true
+			}
+		}
+		for _, l := range lists {
+			for i, st := range l {
+				var lhs ast.Expr
+				tok := token.ASSIGN
+				switch x := st.(type) {
+				case *ast.AssignStmt:
+					if len(x.Lhs) == 1 {
+						lhs, tok = x.Lhs[0], x.Tok
+					}
+				case *ast.IncDecStmt:
+					lhs, tok = x.X, x.Tok
+				}
+				sel, isSel := core.Unparen(lhs).(*ast.SelectorExpr)
+				if lhs == nil || !isSel || !hdrs[core.ObjOf(info, sel.X)] || (sel.Sel.Name != "cap" && sel.Sel.Name != "data") {
+					continue
+				}
+				other := map[string]string{"cap": "data", "data": "cap"}[sel.Sel.Name]
+				paired := false
+				for j := i - 2; j <= i+2; j++ {
+					if j < 0 || j >= len(l) || j == i {
+						continue
+					}
+					if as, isAs := l[j].(*ast.AssignStmt); isAs && len(as.Lhs) == 1 {
+						if s2, isS := core.Unparen(as.Lhs[0]).(*ast.SelectorExpr); isS && core.ObjOf(info, s2.X) == core.ObjOf(info, sel.X) && s2.Sel.Name == other {
+							paired = true
+						}
+					}
+				}
+				if tok != token.ASSIGN || !paired {
+					n++
+					rc.Bad(fmt.Sprintf("%s/%s.%s changed-with-%s", p.FuncName(fd), core.ObjOf(info, sel.X).Name(), sel.Sel.Name, other), st.Pos(), "%s of the pooled header is changed without %s (%s): an exit that releases the header in between leaves a capacity and an array that do not belong together", sel.Sel.Name, other, core.Src(p.Fset, st))
+				}
+			}
+		}
+	}
+	if n < 5 {
+		rc.Unknown("decoder/releaseSlice-sites", token.NoPos, "found %d releases of the slice decoder's working header, fewer than the 5 confirmed by hand", n)
+	}
+}
+
+// ---- C07.R16 the working slice starts with the destination's length ----
+
+// newSlice hands out the working header with len = the length of the destination (its elements are copied in, the
+// slots behind them are cleared by the callers before they are decoded into) or 0. A larger length (the capacity)
+// makes the callers take stale slots of the pooled array for elements of the destination: pointers a former decode
+// left there are decoded through. Obligation: every value given to the field len of a sliceHeader in newSlice is
+// <source header>.len or the constant 0.
+func c07r16(rc *core.RC) {
+	p := rc.P
+	fd := p.Func("decoder", "sliceDecoder.newSlice")
+	if fd == nil || fd.Body == nil {
+		rc.Unknown("decoder.(*sliceDecoder).newSlice/length", token.NoPos, "newSlice not found")
+		return
+	}
+	rc.Touch(p.FuncName(fd))
+	info := p.Info(fd)
+	var src types.Object
+	for _, fl := range fd.Type.Params.List {
+		for _, nm := range fl.Names {
+			src = info.Defs[nm]
+		}
+	}
+	n := 0
+	check := func(at ast.Node, v ast.Expr) {
+		n++
+		key := fmt.Sprintf("decoder.(*sliceDecoder).newSlice/len#%d from-the-destination", n)
+		ok := false
+		if c, isC := core.ConstInt(info, v); isC && c == 0 {
+			ok = true
+		}
+		if sel, isSel := core.Unparen(v).(*ast.SelectorExpr); isSel && sel.Sel.Name == "len" && core.ObjOf(info, sel.X) == src {
+			ok = true
+		}
+		if ok {
+			rc.OK(key, at.Pos(), "len = %s", core.Src(p.Fset, v))
+		} else {
+			rc.Bad(key, at.Pos(), "the working slice is handed out with len = %s: the callers take the first len slots for elements of the destination and neither copy over nor clear them, so what a former decode left in the pooled array (a pointer into another caller's value) is decoded through", core.Src(p.Fset, v))
+		}
+	}
+	ast.Inspect(fd.Body, func(m ast.Node) bool {
+		switch x := m.(type) {
+		case *ast.AssignStmt:
+			for i, l := range x.Lhs {
+				if sel, ok := core.Unparen(l).(*ast.SelectorExpr); ok && sel.Sel.Name == "len" && i < len(x.Rhs) {
+					if f := core.FieldOf(info, sel); f != nil {
+						check(x, x.Rhs[i])
+					}
+				}
+			}
+		case *ast.CompositeLit:
+			if tv, ok := info.Types[x]; ok && strings.HasSuffix(tv.Type.String(), "sliceHeader") {
+				for _, e := range x.Elts {
+					if kv, isKV := e.(*ast.KeyValueExpr); isKV {
+						if id, isID := kv.Key.(*ast.Ident); isID && id.Name == "len" {
+							check(kv, kv.Value)
+						}
+					}
+				}
+			}
+		}
+		return true
+	})
+	if n < 2 {
+		rc.Unknown("decoder.(*sliceDecoder).newSlice/length", fd.Pos(), "found %d values for the length of the working slice, fewer than the 2 confirmed by hand", n)
+	}
+}
